@@ -407,6 +407,8 @@ class PathRun:
             return STuple([self._sym_rec(s, f'{name}.{k}') for k, s in enumerate(sh.shapes)], sh.kind)
         if isinstance(sh, S.Const):
             return self.d.lift_const(self, sh.value)
+        if isinstance(sh, S.GlobalRef):
+            return SClass(sh.qual + '!singleton')
         if isinstance(sh, S.KwArgs):
             return SDictC({k: self._sym_rec(v, f'{name}.{k}') for k, v in sh.items.items()})
         if isinstance(sh, S.SliceS):
